@@ -17,7 +17,7 @@ def contract(qualname, params=None, returns=None, requires=(), ensures=(), modif
              raises=(), loops=None, locals=None, ghost=None, trusted=False, note="",
              exc_ensures=None, inline=(), pure=False, decreases=None, fresh=False,
              ghost_vars=None, ghost_code=(), ghost_returns=None, raises_when=None, writes_fresh=(),
-             native_ensures=None, native_requires=None, functional=None, internal_ensures=()):
+             native_ensures=None, native_requires=None, functional=None, internal_ensures=(), param_attrs=None):
     """Register a contract for the real function `qualname` (module path + function / Class.method).
 
     params    {name: type-string}            types of the symbolic inputs
@@ -38,7 +38,7 @@ def contract(qualname, params=None, returns=None, requires=(), ensures=(), modif
              decreases=decreases, fresh=fresh, ghost_vars=dict(ghost_vars or {}),
              ghost_code=list(ghost_code), ghost_returns=dict(ghost_returns or {}), raises_when=dict(raises_when or {}),
              writes_fresh=list(writes_fresh), native_ensures=native_ensures, native_requires=native_requires,
-             functional=functional, internal_ensures=list(internal_ensures))
+             functional=functional, internal_ensures=list(internal_ensures), param_attrs=dict(param_attrs or {}))
     CONTRACTS[qualname] = c
     return c
 
